@@ -147,6 +147,37 @@ def native_trimesh(seed, quick=True):
     return bad
 
 
+def native_polylines(seed):
+    """several Polyline sources (equal and ragged vertex counts, different currents) in one call == each alone"""
+    import itertools
+    import warnings
+
+    import magpylib as magpy
+
+    warnings.simplefilter("ignore")
+    rng = np.random.default_rng(seed)
+    obs = rng.normal(size=(4, 3)) * 2 + 3
+    bad = []
+    lines = [magpy.current.Polyline(vertices=rng.normal(size=(k, 3)), current=c) for k, c in ((3, 1.0), (3, -2.5), (3, 0.7), (2, 4.0), (5, 1.5), (4, -1.0))]
+    alone = {id(l): {f: getattr(magpy, "get" + f)(l, obs) for f in "BH"} for l in lines}
+    for sel in [(0, 1, 2), (0, 1), (2, 1, 0), (0, 3, 1), (3, 4, 5), (0, 4, 1, 5, 2), (1, 1, 0)]:
+        srcs = [lines[i] for i in sel]
+        for f in "BH":
+            got = getattr(magpy, "get" + f)(srcs, obs, squeeze=False)[:, 0, 0]
+            for l, src in enumerate(srcs):
+                if not np.allclose(got[l], alone[id(src)][f], rtol=1e-9, atol=1e-16, equal_nan=True):
+                    bad.append(f"Polylines {list(sel)} (vertex counts {[len(x.vertices) for x in srcs]}, currents {[x.current for x in srcs]}): get{f} entry {l} differs from that source alone")
+                    break
+    return bad
+
+
+REPLAY_PL = """import sys
+from checks.c06 import native_polylines
+bad = native_polylines({seed})
+for b in bad[:6]: print(b)
+sys.exit(1 if bad else 0)
+"""
+
 REPLAY_TM = """import sys
 from checks.c06 import native_trimesh
 bad = native_trimesh({seed})
@@ -209,6 +240,11 @@ def main(tier, seed):
                                       "script": REPLAY.format(name=nm, rows=json.dumps(found[0]), field=f.get("field", "B"))})
         else:
             rep.violation(f["name"], {"why": f["why"], "solver_output": json.dumps(f.get("row"))}, found_input=False)
+    bad_pl = native_polylines(seed)
+    rep.standin("native: several Polyline sources (equal / ragged vertex counts, different currents) in one call == each source alone", "7 source selections x B,H",
+                14, 7, "fixed selections incl. duplicates and mixed vertex counts", [dict(selection=[0, 1, 2], currents=[1.0, -2.5, 0.7])], failures=len(bad_pl), exhaustive=True)
+    if bad_pl:
+        rep.violation("standin.polylines-in-one-call", {"native_result": bad_pl[0], "script": REPLAY_PL.format(seed=seed)})
     if bad_tm and not any(f["wrapper"] == "TriangularMesh" for f in fails):
         rep.violation("standin.trimesh-sources-in-one-call", {"native_result": bad_tm[0], "script": REPLAY_TM.format(seed=seed)})
     # bounded stand-in: vectorised == element-wise natively
